@@ -12,6 +12,8 @@ import XlModel.Lemmas.Bstr
 import XlModel.Lemmas.SaveGrid
 import XlModel.Lemmas.SaveGrid2
 import XlModel.Lemmas.SaveGrid3
+import XlModel.Lemmas.SaveCols
+import XlModel.Generated.FactsC01
 
 namespace XlModel.Props.C01
 open XlModel XlModel.Bstr XlModel.Grid
@@ -117,6 +119,36 @@ theorem witnesses_roundtrip :
     readBackReopened xmlGo ['_', 'x', '0', '0', '4', '1', Char.ofNat 1] = ['_', 'x', '0', '0', '4', '1', Char.ofNat 1] ∧
     marshal "_x0041_x0042_".toList = "_x005F_x0041_x005F_x0042_".toList := by
   refine ⟨?_, ?_, ?_, ?_, ?_, ?_⟩ <;> (try rw [setstr_save_open_go]) <;> decide
+
+/-! ## column attributes: "row and column attributes" — `mergeExpandedCols` on every save -/
+
+/-- the comparison of `mergeExpandedCols` is a `reflect.DeepEqual` of all ten `xlsxCol` fields against
+the predecessor shifted by one column (regenerated from the composite literal in sheet.go); the model's
+`adj` compares `min`, `max` and the whole attribute record, i.e. exactly these fields. -/
+theorem facts_cols_ok :
+    Facts.C01.mergeColsFields = ["BestFit", "Collapsed", "CustomWidth", "Hidden", "Max", "Min",
+      "OutlineLevel", "Phonetic", "Style", "Width"] ∧ Facts.C01.mergeColsMaxFromLastMin = true := by decide
+
+/-- **save keeps every column's attributes**: for a flat `<cols>` list (one entry per column, as every
+column setter leaves it through `flatCols`), in any order-preserving position (`lo` = any bound below the
+first column), what `mergeExpandedCols` writes resolves every column — touched or not, any of the 16384 —
+to the same width, style, hidden flag, outline level and the other four attributes as before. Unbounded
+list length; induction over the list with the run invariant. -/
+theorem cols_merge_preserves (lo : Nat) (l : List SaveCols.Col) (h : SaveCols.FlatFrom lo l) (c : Nat) :
+    SaveCols.look (SaveCols.mergeCols l) c = SaveCols.look l c := by
+  unfold SaveCols.mergeCols
+  rw [SaveCols.sortCols_flat lo l h]
+  exact SaveCols.look_mergeSorted lo l h c
+
+/-- non-vacuity: equal neighbours do collapse into one range, a neighbour without width does not join -/
+theorem cols_merge_witness :
+    let a : SaveCols.Attrs := ⟨false, false, true, false, 1, false, 0, some ['3', '0']⟩
+    let b : SaveCols.Attrs := ⟨false, false, true, false, 1, false, 0, none⟩
+    SaveCols.mergeCols [⟨1, 1, a⟩, ⟨2, 2, a⟩, ⟨3, 3, b⟩] = [⟨1, 2, a⟩, ⟨3, 3, b⟩] ∧
+    SaveCols.FlatFrom 0 [⟨1, 1, a⟩, ⟨2, 2, a⟩, ⟨3, 3, b⟩] := by
+  intro a b
+  refine ⟨by decide, ?_⟩
+  simp [SaveCols.FlatFrom]
 
 /-! ## the grid: "serialisation never drops, reorders, retypes or alters anything" -/
 
